@@ -135,6 +135,10 @@ def model_fragment(R, snap, jobs, recs):
     C07_estimator_roundtrip / C07_state_fidelity_partial), and whether the model's round trip is exact / the same value."""
     from props import c05 as K
     todo = [job for job, r in zip(jobs, recs) if r and not any(k in r for k in ("skipped", "crash", "harness_error")) and r.get("load") == "ok"]
+    cap = 400       # thorough tier: the sweep has several thousand jobs; the model is evaluated on an evenly spaced subset of them
+    if len(todo) > cap:
+        step = -(-len(todo) // cap)
+        todo = todo[::step]
     specs = [["estjob", job] for job in todo]
     if not specs:
         return
